@@ -536,13 +536,17 @@ static std::string shape_text(const J &c)
   if (kind == "long-number") return head + rep("9", n) + tail;
   if (kind == "long-fraction") return head + "600." + rep("3", n) + tail;
   if (kind == "long-array") { std::string t = "{\"version\":\"1.1\",\"features\":[{\"model\":\"continental plate\",\"name\":\"a\",\"coordinates\":["; for (size_t i = 0; i < n; ++i) t += (i ? "," : "") + std::string("[") + std::to_string(i % 977) + "," + std::to_string((i * 7) % 991) + "]"; return t + "],\"max depth\":1e5}]}"; }
+  if (kind == "quote-in-line-comment") return "{ // a \" in a comment\n\"features\":" + rep("[", n);
+  if (kind == "quote-in-block-comment") return "{ /* a \" */ \"features\":" + rep("[", n);
+  if (kind == "string-ending-in-backslash") return "{\"$schema\":\"C:\\\\wb\\\\\",\"features\":" + rep("[", n);
+  if (kind == "escaped-quote-in-string") return "{\"$schema\":\"a \\\" b\",\"features\":" + rep("[", n);
   if (kind == "comment-flood") return rep("/* [[[[ */", n) + "{\"version\":\"1.1\",\"features\":[]}";
   return "{}";
 }
 static J gen_shape(Chooser &ch)
 {
   J c = J::obj();
-  c["shape"] = ch.pick<std::string>({"open-brackets", "open-braces", "balanced-brackets", "balanced-objects", "nested-in-world", "nested-coordinates", "long-string", "long-key", "long-number", "long-fraction", "long-array", "comment-flood"});
+  c["shape"] = ch.pick<std::string>({"open-brackets", "open-braces", "balanced-brackets", "balanced-objects", "nested-in-world", "nested-coordinates", "long-string", "long-key", "long-number", "long-fraction", "long-array", "comment-flood", "quote-in-line-comment", "quote-in-block-comment", "string-ending-in-backslash", "escaped-quote-in-string"});
   c["n"] = static_cast<double>(ch.pick<int>({3, 50, 900, 1100, 20000, 300000, 2000000}));
   return c;
 }
@@ -575,6 +579,6 @@ int main(int argc, char **argv)
     {"unsupported_option", "depth method 'continuous'; tian water content with an undocumented lithology; mass conserving with an undocumented reference model name; a world-level interpolation value outside the option list; must throw", 60, gen_unsupported, check_must_throw, 100, true, true},
     {"formatting", "one valid world emitted in two styles (indentation, // and /* */ comments, permuted keys, exponent / trailing-zero numbers): both accepted, answers bit-identical at 12 points", 80, gen_formatting, check_formatting, 100, true, true},
     {"extreme_numbers", "schema-valid worlds with 1..3 numbers replaced by 0, -1, 1e-300, +-1e308, NaN/Infinity literals, sign flips, x1e6 and occasionally emptied/shortened lists (one list, or all parallel lists of one model together): construction throws or succeeds, queries return or throw; each case in its own process, a crash is a failure", 200, gen_extreme, check_extreme, 100, true, true},
-    {"text_shapes", "texts that are extreme in shape rather than content: 3 .. 2 000 000 nested brackets / objects (unbalanced, balanced, as a value inside a valid world, as the coordinates), strings, keys and numbers of that many characters, arrays of that many points, that many comments; construction throws or succeeds (each case in its own process, a stack overflow is a crash). Non-trivial: n >= 900", 40, gen_shape, check_shape, 100, true, true},
+    {"text_shapes", "texts that are extreme in shape rather than content: 3 .. 2 000 000 nested brackets / objects (unbalanced, balanced, as a value inside a valid world, as the coordinates), strings, keys and numbers of that many characters, arrays of that many points, that many comments, deep nesting behind a quote inside a comment or behind a string that ends in a backslash; construction throws or succeeds (each case in its own process, a stack overflow is a crash). Non-trivial: n >= 900", 40, gen_shape, check_shape, 100, true, true},
   });
 }
